@@ -8,13 +8,13 @@ import (
 func init() {
 	core.Register(&core.Property{
 		ID: "C20", Engine: "S", Level: "fault_enumeration", Bubble: true,
-		Rule: "each run: a tape-generated sequence of Add/UpdateScore/UpdateTime/Get/Count/Save/Load/Clear over an address pool (empty, 1 byte, 64 KiB, non-ASCII, case variants, trailing blank, control bytes) with positive/negative/extreme score deltas, under a fake clock advanced by tape-chosen sleeps; the book is compared with an ordered-list reference after every operation; for sampled states EVERY prefix of the saved file (every cut near every record boundary for files over 1500 bytes) and mutated files (negative/huge count and address length, random bytes, flipped byte, version) are loaded into fresh repositories; non-trivial = the run contains a save+load, a prefix enumeration or a damaged-file load",
+		Rule: "Engine S phase: each run: a tape-generated sequence of Add/UpdateScore/UpdateTime/Get/Count/Save/Load/Clear over an address pool (empty, 1 byte, 64 KiB, non-ASCII, case variants, trailing blank, control bytes) with positive/negative/extreme score deltas, under a fake clock advanced by tape-chosen sleeps; the book is compared with an ordered-list reference after every operation; for sampled states EVERY prefix of the saved file (every cut near every record boundary for files over 1500 bytes) and mutated files (negative/huge count and address length, random bytes, flipped byte, version) are loaded into fresh repositories; non-trivial = the run contains a save+load, a prefix enumeration or a damaged-file load Engine F phase (second search phase, instrumented build, see DESIGN.md 2.4): 2-4 concurrent callers on their own goroutines perform 1-3 tape-chosen calls each (Add/UpdateScore/UpdateTime/Get/Count/Save/Load/Clear over 2-5 addresses) per phase, 1-4 phases with clock steps between; the tape's scheduler chooses which goroutine executes the next statement of peers.go; the recorded history (invocation/return stamped with the scheduler's event sequence, plus a final sequential Get) is checked for linearizability against a sequential address book with its saved copy (porcupine)",
 		Real: []string{"StoragePeerRepository (Add, Get, UpdateScore, UpdateTime, Count, Save, Load, Clear, readPeer/write: real code)"},
 		Stub: []string{"storage.Storage -> simstore", "wall clock -> testing/synctest fake clock", "math/rand shuffle in Get: seeded from the fake clock (godebug randseednop=0); results compared as sets"},
-		Assumptions: []string{"single caller at a time in this engine (every method holds the repository lock from entry to exit, so an interleaving of callers is an order of calls); worker processes run under a 4 GiB address-space limit (RLIMIT_AS) so that an allocation sized from a corrupt count field (16 GiB) aborts deterministically, as it would on a small host, instead of exhausting this machine",
+		Assumptions: []string{"Engine F phase: statement granularity in peers.go; the storage is the simulated disk, atomic per call; the clock stands still within a phase", "Engine S phase: single caller at a time in this engine (every method holds the repository lock from entry to exit, so an interleaving of callers is an order of calls); worker processes run under a 4 GiB address-space limit (RLIMIT_AS) so that an allocation sized from a corrupt count field (16 GiB) aborts deterministically, as it would on a small host, instead of exhausting this machine",
 			"record boundaries are obtained black-box from the lengths of files saved with the first j peers"},
-		FaultKinds: []string{"file-cut-short", "damaged-file:count-negative", "damaged-file:count-huge", "damaged-file:addrlen-negative", "damaged-file:addrlen-large", "damaged-file:random-bytes", "damaged-file:flip-byte", "damaged-file:version", "damaged-file:count-small"},
-		ProbeNames: []string{"add-existing-address", "negative-score", "get-unbounded", "get-proper-subset", "save", "save+load", "prefixes-with>=3-peers"},
+		FaultKinds: []string{"schedule:goroutine-stalled", "file-cut-short", "damaged-file:count-negative", "damaged-file:count-huge", "damaged-file:addrlen-negative", "damaged-file:addrlen-large", "damaged-file:random-bytes", "damaged-file:flip-byte", "damaged-file:version", "damaged-file:count-small"},
+		ProbeNames: []string{"add-existing-address", "negative-score", "get-unbounded", "get-proper-subset", "save", "save+load", "prefixes-with>=3-peers", "history-linearizable", "linearizability-check-inconclusive"},
 		Run: func(c *core.Ctx) {
 			if core.FAvailable() {
 				runC20F(c) // Engine F phase (instrumented build): concurrent callers
